@@ -572,9 +572,63 @@ func runC15(t *testing.T, run *mc.Run) int {
 		vsleep(3 * time.Second)
 		blank = fmt.Sprintf("returned=%v err=%v", r.returned, r.ret)
 	})
+	// cancellation while kernel events are still being collected: the lines were received, so they still make it to
+	// the correlator (Read flushes the reassembler on its way out) - with the login known before, the events are
+	// written. Cancelled 0 / 1 / 1900 ms after the last line, with a complete simple record, an unfinished SYSCALL
+	// group, or both waiting in the reassembler.
+	for _, waitMS := range []int{0, 1, 1900} {
+		for _, pending := range []string{"simple", "unfinished-group", "both"} {
+			n++
+			var msg string
+			bubble(t, func() {
+				r := startRead(0)
+				r.offerLogin(mkLogin(bindPID, "1"))
+				r.offerLine(bindLines("7") + "\n")
+				vsleep(5 * time.Second)
+				want := map[int64]bool{1600000000: true}
+				if pending != "unfinished-group" {
+					r.offerLine(auditgen.Simple("USER_START", 1700000021, 3001, "7", "4242", "success").Recs[0].Line + "\n")
+					want[1700000021] = true
+				}
+				if pending != "simple" {
+					g := auditgen.Syscall(1700000022, 3002, "7", "4242", "yes", []string{"ls", "-l"}, 1, false)
+					for _, rec := range g.Recs[:len(g.Recs)-1] { // everything but the closing PROCTITLE
+						r.offerLine(rec.Line + "\n")
+					}
+					want[1700000022] = true
+				}
+				if waitMS > 0 {
+					vsleep(time.Duration(waitMS) * time.Millisecond)
+				}
+				r.cancel()
+				synctest.Wait()
+				vsleep(10 * time.Second)
+				if !r.returned {
+					msg = "the processor did not return after cancellation"
+					return
+				}
+				evs, _ := r.w.events()
+				got := map[int64]int{}
+				for _, e := range evs {
+					if e.Metadata.AuditID == "7" {
+						got[e.LoggedAt.Unix()]++
+					}
+				}
+				for sec := range want {
+					if got[sec] != 1 {
+						msg = fmt.Sprintf("the records with kernel time %d were received before the cancellation but their event was handed to the correlator %d times (returned: %v; events of the session by kernel time: %v)", sec, got[sec], r.ret, got)
+					}
+				}
+			})
+			if msg != "" {
+				run.Violation("C15:cancelled-while-collecting:"+pending, map[string]any{"pending": pending, "cancel_after_ms": waitMS},
+					fmt.Sprintf("cancellation %d ms after the last line, %s waiting in the reassembler: %s", waitMS, pending, msg))
+			}
+		}
+	}
 	run.Note("observation, not judged (the statement speaks of non-empty lines): a blank record delivered as \"\\n\": %s", short(blank, 160))
 	cov := mc.Coverage{Level: "model_checking", States: len(shapes), Transitions: n, Traces: n, Evaluations: n, Distinct: interleaved, Exhaustive: complete, Samples: samples,
-		Rule:  fmt.Sprintf("every merge of the record sequences of %d kernel events (5-record SYSCALL group, simple record, 4-record SYSCALL group ending in EOE) that keeps each event's internal order, x {no fault (every merge); for every merge (thorough) / every 25th merge (quick): each of 10 malformed line shapes at every position; output write failing at the k-th write for every k (login first, and login last so that the failure hits the release of held events), with the plain error and with errors that also match context.Canceled / DeadlineExceeded / ErrClosedPipe / EOF / EPIPE; 3 kinds of invalid login at every position; records of every length within 2 bytes of 1024 / 4096 / 8192 / 8970 / 9012 / 16384 / 65536 (thorough: every length 8900..9100), with and without their newline}, delivered line by line to the real Auditd.Read in a synctest bubble ('does not return' = durably blocked). states = distinct stream shapes; distinct_nontrivial = shapes in which records of different kernel events interleave", nev),
+		Rule:  fmt.Sprintf("every merge of the record sequences of %d kernel events (5-record SYSCALL group, simple record, 4-record SYSCALL group ending in EOE) that keeps each event's internal order, x {no fault (every merge); for every merge (thorough) / every 25th merge (quick): each of 10 malformed line shapes at every position; output write failing at the k-th write for every k (login first, and login last so that the failure hits the release of held events), with the plain error and with errors that also match context.Canceled / DeadlineExceeded / ErrClosedPipe / EOF / EPIPE; 3 kinds of invalid login at every position; records of every length within 2 bytes of 1024 / 4096 / 8192 / 8970 / 9012 / 16384 / 65536 (thorough: every length 8900..9100), with and without their newline; cancellation 0 / 1 / 1900 ms after the last line while a simple record, an unfinished SYSCALL group or both are still held by the reassembler (they are flushed to the correlator)}, delivered line by line to the real Auditd.Read in a synctest bubble ('does not return' = durably blocked). states = distinct stream shapes; distinct_nontrivial = shapes in which records of different kernel events interleave", nev),
 		Extra: map[string]any{"kernel_events": nev, "stream_shapes": len(shapes), "malformed_shapes": len(malformed)}}
 	cov.Assumptions = []string{"testing/synctest durable-blocking semantics and virtual clock", "events are observed through the real tracker with the session bound, i.e. at the output writer"}
 	return run.Finish(cov)
